@@ -21,6 +21,7 @@ import (
 	"testing"
 	"time"
 
+	"github.com/NibiruChain/collections"
 	tmproto "github.com/cometbft/cometbft/proto/tendermint/types"
 	sdk "github.com/cosmos/cosmos-sdk/types"
 
@@ -62,6 +63,7 @@ type c14Input struct {
 }
 
 type c14Info struct {
+	Key      string   `json:"key"` // the store key the info was found under
 	Ident    string   `json:"ident"`
 	Start    *big.Int `json:"start"`
 	Dur      int64    `json:"dur"`
@@ -146,9 +148,10 @@ func installRecorders(a *app.NibiruApp, log *[]c14Call, fail **c14Fail) {
 
 func infosOf(a *app.NibiruApp, ctx sdk.Context) []c14Info {
 	out := []c14Info{}
-	for _, e := range a.EpochsKeeper.AllEpochInfos(ctx) {
+	for _, kv := range a.EpochsKeeper.Epochs.Iterate(ctx, collections.Range[string]{}).KeyValues() {
+		e := kv.Value
 		out = append(out, c14Info{
-			Ident: e.Identifier, Start: nsOf(e.StartTime), Dur: int64(e.Duration), Cur: e.CurrentEpoch,
+			Key: kv.Key, Ident: e.Identifier, Start: nsOf(e.StartTime), Dur: int64(e.Duration), Cur: e.CurrentEpoch,
 			CurStart: nsOf(e.CurrentEpochStartTime), Height: e.CurrentEpochStartHeight, Started: e.EpochCountingStarted,
 		})
 	}
@@ -265,7 +268,10 @@ func runABCI(t *testing.T, in c14Input) c14Obs {
 
 // ---------------------------------------------------------------- generation
 
-var c14Idents = []string{"day", "week", "month", "30 min", "15 min", "hour", "a", "b0", "zz", "E1", "~x"}
+// identifiers are arbitrary non-empty strings: plain ones, padded / differently cased / unicode variants of one another,
+// whitespace-only ones, prefixes of one another
+var c14Idents = []string{"day", "week", "month", "30 min", "15 min", "hour", "a", "b0", "zz", "E1", "~x",
+	" day", "day ", " day ", "day\t", "Day", "DAY", "da", "dày", "日", " ", "  ", "a ", "a b", "week\n", "WEEK", "30  min", "\u00a0day"}
 
 const (
 	nsSec = int64(1_000_000_000)
@@ -342,7 +348,7 @@ func genC14Case(r *Rng) c14Input {
 			durs = append(durs, op.Dur)
 		}
 	}
-	nAdd := r.Range(1, 3)
+	nAdd := r.Range(1, 5)
 	for i := 0; i < nAdd; i++ {
 		op := genAdd(r, now, malformedCase && r.Chance(1, 3), used)
 		op.T, op.H = now, h
